@@ -8,6 +8,7 @@ mod batch;
 mod text;
 mod rename;
 mod sem;
+mod census;
 mod config;
 mod filters;
 mod astjson;
@@ -22,6 +23,7 @@ fn main() {
         Some("batch") => batch::main(&args[1..]),
         Some("config") => config::main(&args[1..]),
         Some("filters") => filters::main(&args[1..]),
+        Some("census") => census::main(&args[1..]),
         Some("sem") => sem::main(&args[1..]),
         Some("rename") => rename::main(&args[1..]),
         Some("text") => text::main(&args[1..]),
